@@ -97,8 +97,13 @@ type History struct {
 	Start string `json:"start,omitempty"`
 	// ModuleAccts: the genesis lists the module accounts with their permissions, like the export of a running network
 	// does (otherwise they are created on first use)
-	ModuleAccts bool     `json:"module_accts,omitempty"`
-	Blocks      []HBlock `json:"blocks"`
+	ModuleAccts bool `json:"module_accts,omitempty"`
+	// FarEpoch: genesis registers an epoch that starts 45 days after genesis (it is usually still pending at the end)
+	FarEpoch bool `json:"far_epoch,omitempty"`
+	// CapNear (with Coinomics): the maximum supply is only 2*10^13 aISLM above the genesis supply, so minting reaches
+	// the cap within the history and switches itself off
+	CapNear bool     `json:"cap_near,omitempty"`
+	Blocks  []HBlock `json:"blocks"`
 }
 
 const hUsers = 5
@@ -110,7 +115,7 @@ var hKinds = []string{
 	"bad-nonce", "low-fee", "unjail", "send-module", "multisend-new", "delegate-all", "eth-fanout", "eth-approve-toucher", "eth-toucher", "erc20-deploy", "erc20-mint", "erc20-transfer", "erc20-transfer", "erc20-convert",
 }
 
-var hGovKinds = []string{"register-erc20", "register-erc20", "toggle-pair", "precompile-off", "precompile-swap", "erc20-switch", "register-coin", "upgrade-plan", "fork-schedule"}
+var hGovKinds = []string{"register-erc20", "register-erc20", "toggle-pair", "precompile-off", "precompile-swap", "erc20-switch", "register-coin", "upgrade-plan", "fork-schedule", "coinomics-switch"}
 
 // hModuleTargets: module accounts a user might (try to) send coins to.
 var hModuleTargets = []string{"distribution", "bonded_tokens_pool", "not_bonded_tokens_pool", "fee_collector", "gov", "erc20", "coinomics"}
@@ -147,6 +152,8 @@ func genHistory(t *rapid.T, minBlocks, maxBlocks int, kinds []string) History {
 		LateForks: rapid.IntRange(0, 5).Draw(t, "lateforks") == 0, FutureEpoch: rapid.IntRange(0, 2).Draw(t, "futureepoch") == 0}
 	h.Start = rapid.SampledFrom(hStarts).Draw(t, "start")
 	h.ModuleAccts = rapid.Bool().Draw(t, "module-accts")
+	h.FarEpoch = rapid.IntRange(0, 2).Draw(t, "far-epoch") == 0
+	h.CapNear = h.Coinomics && rapid.IntRange(0, 2).Draw(t, "cap-near") == 0
 	nb := rapid.IntRange(minBlocks, maxBlocks).Draw(t, "nblocks")
 	for i := 0; i < nb; i++ {
 		b := HBlock{Dt: rapid.SampledFrom(hDts).Draw(t, "dt"), Proposer: rapid.IntRange(0, 3).Draw(t, "proposer")}
@@ -334,6 +341,20 @@ func hOpts(h History) chain.Opts {
 			must(err)
 			ag.Accounts = packed
 			gs[authtypes.ModuleName] = cdc.MustMarshalJSON(&ag)
+		}
+		if h.FarEpoch {
+			var pg epochstypes.GenesisState
+			cdc.MustUnmarshalJSON(gs[epochstypes.ModuleName], &pg)
+			pg.Epochs = append(pg.Epochs, epochstypes.EpochInfo{Identifier: "quarter", StartTime: hGenesisTime(h).Add(45 * 24 * time.Hour), Duration: 30 * 24 * time.Hour})
+			gs[epochstypes.ModuleName] = cdc.MustMarshalJSON(&pg)
+		}
+		if h.CapNear && h.Coinomics {
+			var bg banktypes.GenesisState
+			cdc.MustUnmarshalJSON(gs[banktypes.ModuleName], &bg)
+			var cg coinomicstypes.GenesisState
+			cdc.MustUnmarshalJSON(gs[coinomicstypes.ModuleName], &cg)
+			cg.MaxSupply = sdk.NewCoin(chain.Denom, bg.Supply.AmountOf(chain.Denom).Add(sdkmath.NewInt(20_000_000_000_000)))
+			gs[coinomicstypes.ModuleName] = cdc.MustMarshalJSON(&cg)
 		}
 		if h.FutureEpoch {
 			var pg epochstypes.GenesisState
@@ -932,6 +953,8 @@ func (r *hRunner) resolveGov(x HTx) *GovOp {
 		}
 	case "erc20-switch":
 		return &GovOp{K: "erc20-switch"}
+	case "coinomics-switch":
+		return &GovOp{K: "coinomics-switch"}
 	case "register-coin":
 		if !app.Erc20Keeper.IsDenomRegistered(ctx, "uxmpl") {
 			return &GovOp{K: "register-coin"}
@@ -1018,6 +1041,10 @@ func (r *hRunner) applyGov(g GovOp) {
 		if err = p.Validate(); err == nil {
 			err = app.EvmKeeper.SetParams(cctx, p)
 		}
+	case "coinomics-switch":
+		p := app.CoinomicsKeeper.GetParams(cctx)
+		p.EnableCoinomics = !p.EnableCoinomics
+		app.CoinomicsKeeper.SetParams(cctx, p)
 	case "erc20-switch":
 		p := app.Erc20Keeper.GetParams(cctx)
 		p.EnableErc20 = !p.EnableErc20
